@@ -31,7 +31,7 @@ BOUNDSCHECK_TIERS = ("thorough",)
 def REQUIRED(tier):
     return [f"op:{o}" for o in OPS] + ["regime:subrange_before_eof", "regime:>=3blocks", "regime:gulp<2*maxdelay", "regime:gulp>nsamps",
                                        "regime:last_block_shorter_than_maxdelay", "regime:maxdelay>nsamps/2", "tiling_checks", "gulp_independence_checks",
-                                       "spy:extract_tim", "spy:dedisperse", "regime:reader_with_history", "regime:nchans>32_not_multiple_of_32", "held_result_checks", "regime:same_band_other_sampling_time_earlier_in_process", "regime:reductions_continuing_where_a_dedispersion_stopped"]
+                                       "spy:extract_tim", "spy:dedisperse", "regime:reader_with_history", "regime:nchans>32_not_multiple_of_32", "held_result_checks", "regime:same_band_other_sampling_time_earlier_in_process", "regime:reductions_continuing_where_a_dedispersion_stopped", "regime:wide_band_of_bright_8bit_samples"]
 
 
 def _cfg(nbits, N=97, nch=8, split=None, tsamp=1e-3):
@@ -53,6 +53,9 @@ def cases(tier, seed):
     # segment-wise processing on one reader: a dedispersion made of full blocks only, then reductions that start where it stopped
     for i, (nbits, g, j) in enumerate(((8, 40, 2), (4, 25, 3), (32, 64, 0), (8, 33, 1))):
         yield {"cfg": _cfg(nbits, N=400), "dseed": int(seed) + 7 + i, "chain": [g, j, 25.0], "runs": []}
+    for i, nchw in enumerate((2048, 1032)):
+        wide = {"N": 60, "nchans": nchw, "nbits": 8, "split": [60], "fch1": 1500.0, "foff": -0.125, "tsamp": 1e-3, "bright": True}
+        yield {"cfg": wide, "dseed": int(seed) + 11 + i, "wide_bright": True, "runs": [["collapse", g, 0, 60, 0.0, 0] for g in (7, 60)] + [["bandpass", 13, 0, 60, 0.0, 0], ["dedisperse", 25, 0, 60, 3.0, 0]]}
     rng = np.random.default_rng([seed, 606])
     nrand = 600 if tier == "quick" else 20000
     for k in range(nrand // 6):
@@ -89,6 +92,8 @@ def setup_worker(ctx):
 
 def make_data(cfg, dseed):
     rng = np.random.default_rng([dseed, cfg["N"], cfg["nbits"], cfg["nchans"], 6])
+    if cfg.get("bright"):       # a wide band of bright 8-bit samples: partial sums of a spectrum leave 16 bits
+        return rng.integers(170, 256, size=(cfg["N"], cfg["nchans"])).astype(np.uint8)
     return sigfile.random_samples(rng, cfg["N"], cfg["nchans"], cfg["nbits"])
 
 
@@ -115,6 +120,10 @@ def _call(fil, op, gulp, start, nsamps, dm, ichan):
     if op == "read_chan":
         return fil.read_chan(ichan, **kw)
     if op == "dedisperse":
+        if (gulp + start + nsamps) % 5 == 0:
+            # the caller supplies the read buffers (documented option), and its memory is not zeroed
+            _call.dirty = getattr(_call, "dirty", 0) + 1
+            return fil.dedisperse(dm, allocator=lambda nbytes: bytearray(b"\x7f" * nbytes), **kw)
         return fil.dedisperse(dm, **kw)
     if op == "stats":
         fil.compute_stats(**kw)
@@ -140,6 +149,8 @@ def run_case(case, ctx):
     cfg = case["cfg"]
     X, paths = _files(ctx, cfg, case["dseed"])
     Xf = X.astype(np.float64)
+    if case.get("wide_bright"):
+        ctx.count("regime:wide_band_of_bright_8bit_samples")
     if case.get("first"):
         _, p1 = _files(ctx, case["first"], case["dseed"])
         FilReader(p1 if len(p1) > 1 else p1[0]).dedisperse(40.0, gulp=50, quiet=True, description="v")
